@@ -126,7 +126,7 @@ def all_tables(n):
 
 class Checkers(Suite):
     name = "c18.checkers"
-    case_timeout = 5
+    case_timeout = 20
 
     def cases(self, rng, tier, widen):
         out = []
@@ -163,6 +163,30 @@ class Checkers(Suite):
                 for a, b in zip(cyc[:m], cyc[1:m] + cyc[:1]):
                     pids[a] = b
             out.append({"class": "functional-graph", "ids": list(range(n)), "pids": pids})
+        # long tables (thousands of rows): runs in which every node's parent is the previous / the next row, closed into a ring or not,
+        # trunks with short twigs, in id order and shuffled — sizes around and beyond the interpreter's recursion limit
+        import sys as _sys
+        lim = _sys.getrecursionlimit()
+        longs = []
+        for kind in (["run-open", "run-ring", "trunk-twigs", "run-back", "run-shuffled"] if big else ["run-open", "run-ring", "trunk-twigs"]):
+            n = lim + rng.randint(200, 900) if kind != "trunk-twigs" else 2 * lim + rng.randint(0, 500)
+            if kind == "run-open":
+                pids = [-1] + list(range(n - 1))                     # 0 <- 1 <- 2 ...
+                pids[-1] = 0                                          # the last node hangs off the root
+            elif kind == "run-ring":
+                pids = [n - 1] + list(range(n - 1))                  # one big cycle
+            elif kind == "run-back":
+                pids = list(range(1, n)) + [-1]                      # parents after children
+            elif kind == "trunk-twigs":
+                m = n // 2
+                pids = [-1] + list(range(m - 1)) + [rng.randrange(m) for _ in range(n - m)]
+            else:
+                perm = list(range(1, n)); rng.shuffle(perm); order = [0] + perm
+                pids = [-1] * n
+                for a, b in zip(order, order[1:]):
+                    pids[b] = a
+            longs.append({"class": "long/" + kind, "ids": list(range(n)), "pids": pids, "big": True})
+        out.extend(longs)
         # tables whose ids are not 0-based (checkers that work on any table)
         for _ in range(60 if big else 15):
             n = rng.choice([3, 5, 9])
